@@ -32,7 +32,7 @@ STAT_COLS = [('Mean', 'mean'), ('Geom. Mean', 'gmean'), ('Median', 'median'), ('
              ('CV', 'cv'), ('Geom. Std', 'gstd'), ('Geom. CV', 'gcv'), ('IQR', 'iqr'), ('RCV', 'rcv')]
 
 
-def hand(F, base, row, inst_row, mef_fxns):
+def hand(F, base, row, inst_row, mef_fxns, is_integer_file):
     """documented steps, composed by hand (module docstring of excel_ui + docs)."""
     s = F.io.FCSData(os.path.join(base, row['File Path']))
     sc = [inst_row['Forward Scatter Channel'], inst_row['Side Scatter Channel']]
@@ -55,7 +55,7 @@ def hand(F, base, row, inst_row, mef_fxns):
             raise ValueError('unexpected units in generator: %r' % u)
         rep.append(ch)
     s = F.gate.start_end(s, num_start=250, num_end=100)
-    if s.data_type == 'I':
+    if is_integer_file:      # "when the data are integers": decided from the file as written ($DATATYPE I), not from the library
         s = F.gate.high_low(s, sc + rep)
     s = F.gate.density2d(s, channels=sc, gate_fraction=row['Gate Fraction'], xscale='logicle', yscale='logicle')
     return s, rep
@@ -86,7 +86,7 @@ def run(ctx):
         mon.cid = cid
         base = os.path.join(ctx.tmpdir, 'exp')
         itab, btab, stab, info = excelgen.experiment(rng, base, n_beads=int(rng.integers(0, 3)) if cid[1] % 2 else 1,
-                                                     force_float_first=cid[1] % 2 == 0)
+                                                     force_float_first=('D' if cid[1] % 4 == 0 else True) if cid[1] % 2 == 0 else False)   # single / double precision
         np.random.seed(int(rng.integers(1 << 30)))
         with warnings.catch_warnings():
             warnings.simplefilter('ignore')
@@ -103,7 +103,8 @@ def run(ctx):
             for sid, row in stab.iterrows():
                 with warnings.catch_warnings():
                     warnings.simplefilter('ignore')
-                    hands[sid] = core.attempt(hand, F, base, row, itab.loc[row['Instrument ID']], mef_fxns)
+                    hands[sid] = core.attempt(hand, F, base, row, itab.loc[row['Instrument ID']], mef_fxns,
+                                              info['sample_specs'][sid]['datatype'] == 'I')
         with warnings.catch_warnings():
             warnings.simplefilter('ignore')
             o = core.attempt(E.process_samples_table, stab, itab, mef_transform_fxns=mef_fxns, beads_table=btab,
@@ -126,7 +127,8 @@ def run(ctx):
             else:
                 with warnings.catch_warnings():
                     warnings.simplefilter('ignore')
-                    h = core.attempt(hand, F, base, row, itab.loc[row['Instrument ID']], mef_fxns)
+                    h = core.attempt(hand, F, base, row, itab.loc[row['Instrument ID']], mef_fxns,
+                                              info['sample_specs'][sid]['datatype'] == 'I')
             if h.raised:
                 ctx.note('hand composition raised: ' + core.exc_str(h.exc)[:100])
                 ctx.counters['oracle_errors'] += 1
